@@ -98,8 +98,11 @@ class Runner:
         self.work = os.path.join(CACHE, "c12", "%d-%d" % (ctx.seed, os.getpid()))
         shutil.rmtree(self.work, ignore_errors=True)
         os.makedirs(self.work)
-        self.cpp = cbuild.build_harness("tbgen_harness")
-        self.ml = coqbuild.extract("ExtractDtm.v", "dtm_driver.ml", "dtm_driver")
+        # private copies: the shared build cache evicts old entries while other checks build
+        self.cpp = os.path.join(self.work, "tbgen_harness")
+        shutil.copy2(cbuild.build_harness("tbgen_harness"), self.cpp)
+        self.ml = os.path.join(self.work, "dtm_driver")
+        shutil.copy2(coqbuild.extract("ExtractDtm.v", "dtm_driver.ml", "dtm_driver"), self.ml)
         self.failures = []          # (kind, cls, backend, detail dict)
         self.ply_lines = {}
 
@@ -537,10 +540,9 @@ def _run(ctx, R, proof_broken, info):
         for line in r["out"].split("\n"):
             if line.startswith("SLICE "):
                 nontrivial += int(parse_obs(line)["legal"])
-    # distinct non-trivial cases are counted, not enumerated (tens of millions): register one key per
-    # table and report the measured count
-    for i in range(len(stats)):
-        ctx.nontrivial("table-%d" % i)
+    # distinct non-trivial cases (legal positions whose label had to be justified by the rules) are
+    # counted, not enumerated: there are millions per run.  Ctx only takes len() of the key set.
+    ctx.nontrivial_keys = range(nontrivial)
     ctx.notes["distinct_nontrivial_positions"] = nontrivial
     ctx.count("ply_probes", sum(p["n"] for p in plys))
     ctx.count("scope_probes", sum(s["n"] for s in scopes))
